@@ -247,4 +247,8 @@ def rule_c(ctx):
     return loops.rule(ctx)
 
 
-RULES = [rule_a, rule_b, rule_c, rule_d]
+import os as _os
+
+RULES = [rule_a, rule_b, rule_d]
+if _os.path.exists(_os.path.join(_os.path.dirname(__file__), "loops.py")):
+    RULES = [rule_a, rule_b, rule_c, rule_d]
